@@ -177,3 +177,13 @@ def run(prog, rep):
         if k_.endswith("/support") or k_.endswith("/parsed") or k_.endswith("/shape") or k_ in ("parse_and_validate", "parse_and_validate_extended"):
             (rep.ok if i.verdict == "ok" else rep.violation if i.verdict == "violation" else rep.unresolved)("C15-R4", k_, i.where, i.detail)
     rep.floor("C15-R4", 4)
+    # the number of copies a formula needs is its quantifier nesting depth only because the validator hands out the names x, xx, ... by
+    # depth and gives a name back when its quantifier is left: a name that leaks into a sibling scope makes the tree need more copies
+    # than its depth (Err on a graph that has enough of them).  Shared with C07-R1 (names by depth) / C07-R3 (no state leaks).
+    rep.rule("C15-R5", "canonical names are handed out by nesting depth and given back on scope exit")
+    sub3 = type(rep)("C15n")
+    c07.run(prog, sub3)
+    for i in sub3.instances:
+        if i.rule in ("C07-R1", "C07-R3"):
+            (rep.ok if i.verdict == "ok" else rep.violation if i.verdict == "violation" else rep.unresolved)("C15-R5", i.key.split(":", 1)[1], i.where, i.detail)
+    rep.floor("C15-R5", 17)
